@@ -241,6 +241,8 @@ func cmdCheck(args []string) int {
 	if _, ok := f.kv["seed"]; ok {
 		seed = uint64(f.num("seed", 1))
 	}
+	os.Setenv("VERIF_TIER", tier)
+	os.Setenv("VERIF_SEED", fmt.Sprint(seed))
 	nruns := p.Quick
 	if tier == "thorough" {
 		nruns = p.Thorough
